@@ -10,7 +10,13 @@ func init() {
 		}
 		add := func(op string, shape []int, dt string, slope []int) {
 			special := (op == "Sigmoid" || op == "Tanh") && len(shape) <= 1 && (dt == "float32" || th) && (len(shape) == 0 || shape[0] < 10)
-			p.Jobs = append(p.Jobs, Job{Harness: "opset13.H_C10", Case: map[string]interface{}{"op": op, "shape": shape, "dtype": dt, "slope": slope, "special": special}})
+			n := 1
+			for _, d := range shape {
+				n *= d
+			}
+			// instances of several thousand elements run on a fixed pattern (natively and by the interpreter in
+			// concrete mode): their point is their size
+			p.Jobs = append(p.Jobs, Job{Harness: "opset13.H_C10", Case: map[string]interface{}{"op": op, "shape": shape, "dtype": dt, "slope": slope, "special": special, "concrete": n > 1000}})
 		}
 		floatOps := []string{"Abs", "Relu", "Sigmoid", "Tanh", "Sin", "Cos", "Tan", "Asin", "Acos", "Atan", "Sinh", "Cosh", "Asinh", "Acosh", "Atanh"}
 		for _, op := range floatOps {
